@@ -209,28 +209,47 @@ func ruleC13F2(r *Run, le *LockEngine) {
 	name := fnName(w)
 	var ops []ssa.Instruction
 	var closes []ssa.Instruction
-	allInstrs(w, func(ins ssa.Instruction) {
-		cc := instrCall(ins)
-		if cc == nil {
-			return
-		}
-		n := callName(ins)
-		if n == "/transport/websocket.Conn.Writer" {
-			ops = append(ops, ins)
-		}
-		if n == "io.Closer.Close" || n == "io.WriteCloser.Close" {
-			if _, isDefer := ins.(*ssa.Defer); !isDefer {
-				closes = append(closes, ins)
+	// the per-message writer may be used in a helper of Write that is called with the mutex held
+	// (writeMessage(encoded), "caller must hold writeMu"): its operations count with the locks held at the call
+	viaCall := map[ssa.Instruction]ssa.Instruction{} // operation in a helper -> the call of the helper in Write
+	scan := func(f *ssa.Function, site ssa.Instruction) {}
+	var wfn *ssa.Function = w
+	scan = func(f *ssa.Function, site ssa.Instruction) {
+		allInstrs(f, func(ins ssa.Instruction) {
+			cc := instrCall(ins)
+			if cc == nil {
+				return
 			}
-			ops = append(ops, ins)
-		}
-		if cc.StaticCallee() == nil && !cc.IsInvoke() {
-			// the encode slot (a func-typed field)
-			if hasLeafPrefix(p.Leaves(cc.Value, provOpts{}), "field:/transport/websocket.Transport.encodeTo") {
+			if site != nil {
+				viaCall[ins] = site
+			}
+			if f == w {
+				if cal := cc.StaticCallee(); cal != nil && p.Analysed(cal) && cal.Blocks != nil && recvTypeName(cal) == "Transport" && fnPkgPath(cal) == fnPkgPath(w) {
+					if _, isCall := ins.(*ssa.Call); isCall && len(findCalls(cal, false, "/transport/websocket.Conn.Writer")) > 0 {
+						wfn = cal
+						scan(cal, ins)
+					}
+				}
+			}
+			n := callName(ins)
+			if n == "/transport/websocket.Conn.Writer" {
 				ops = append(ops, ins)
 			}
-		}
-	})
+			if n == "io.Closer.Close" || n == "io.WriteCloser.Close" {
+				if _, isDefer := ins.(*ssa.Defer); !isDefer {
+					closes = append(closes, ins)
+				}
+				ops = append(ops, ins)
+			}
+			if cc.StaticCallee() == nil && !cc.IsInvoke() {
+				// the encode slot (a func-typed field)
+				if hasLeafPrefix(p.Leaves(cc.Value, provOpts{}), "field:/transport/websocket.Transport.encodeTo") {
+					ops = append(ops, ins)
+				}
+			}
+		})
+	}
+	scan(w, nil)
 	ok := len(ops) >= 3
 	for _, o := range ops {
 		if _, isDefer := o.(*ssa.Defer); isDefer {
@@ -240,8 +259,15 @@ func ruleC13F2(r *Run, le *LockEngine) {
 		h := le.HeldAt(o)
 		found := false
 		for k, m := range h {
-			if m == modeW && strings.HasPrefix(k, w.Params[0].Name()+".") {
+			if m == modeW && strings.HasPrefix(k, o.Parent().Params[0].Name()+".") {
 				found = true
+			}
+		}
+		if site, via := viaCall[o]; via {
+			for k, m := range le.HeldAt(site) {
+				if m == modeW && strings.HasPrefix(k, w.Params[0].Name()+".") {
+					found = true
+				}
 			}
 		}
 		if !found {
@@ -257,11 +283,11 @@ func ruleC13F2(r *Run, le *LockEngine) {
 			continue
 		}
 		for _, ev := range errResultsOf(call) {
-			if len(nilTestsOf(w, ev)) > 0 {
+			if len(nilTestsOf(call.Parent(), ev)) > 0 {
 				okErr = true
 			}
 			// or returned directly
-			allInstrs(w, func(ins ssa.Instruction) {
+			allInstrs(call.Parent(), func(ins ssa.Instruction) {
 				if ret, isRet := ins.(*ssa.Return); isRet {
 					for _, l := range p.Leaves(retResults(ret)[0], provOpts{}) {
 						if l == "call:io.Closer.Close" || l == "call:io.WriteCloser.Close" {
@@ -271,6 +297,25 @@ func ruleC13F2(r *Run, le *LockEngine) {
 				}
 			})
 		}
+	}
+	// when the writer lives in a helper, Write hands the helper's error on
+	if wfn != w && okErr {
+		handsOn := false
+		allInstrs(w, func(ins ssa.Instruction) {
+			if c, isC := ins.(*ssa.Call); isC && c.Call.StaticCallee() == wfn {
+				for _, ev := range errResultsOf(c) {
+					if len(nilTestsOf(w, ev)) > 0 {
+						handsOn = true
+					}
+					allInstrs(w, func(x ssa.Instruction) {
+						if ret, isRet := x.(*ssa.Return); isRet && len(retResults(ret)) > 0 && canonVal(retResults(ret)[0]) == ev {
+							handsOn = true
+						}
+					})
+				}
+			}
+		})
+		okErr = handsOn
 	}
 	r.Check(name+" reports the writer's Close error", okErr, p.pos(w.Pos()), name, "the message is flushed by the writer's Close; its error must be tested or returned (a deferred Close drops it and a failed write is reported as success)")
 }
@@ -701,11 +746,28 @@ func ruleC13F12(r *Run) {
 	}
 	name := fnName(fn)
 	var acq *ssa.Call
-	allInstrs(fn, func(ins ssa.Instruction) {
-		if c, ok := ins.(*ssa.Call); ok && c.Call.IsInvoke() && c.Call.Method.Name() == "Writer" {
-			acq = c
-		}
-	})
+	findAcq := func(f *ssa.Function) *ssa.Call {
+		var out *ssa.Call
+		allInstrs(f, func(ins ssa.Instruction) {
+			if c, ok := ins.(*ssa.Call); ok && c.Call.IsInvoke() && c.Call.Method.Name() == "Writer" {
+				out = c
+			}
+		})
+		return out
+	}
+	acq = findAcq(fn)
+	if acq == nil {
+		// in a helper of Write (writeMessage)
+		allInstrs(fn, func(ins ssa.Instruction) {
+			if c, ok := ins.(*ssa.Call); ok && acq == nil {
+				if cal := c.Call.StaticCallee(); cal != nil && p.Analysed(cal) && cal.Blocks != nil && recvTypeName(cal) == "Transport" {
+					if a := findAcq(cal); a != nil {
+						acq, fn = a, cal
+					}
+				}
+			}
+		})
+	}
 	if acq == nil {
 		r.Undecided(name+" writer acquisition", "no call of Conn.Writer found")
 		return
